@@ -5,7 +5,9 @@
   is reused unchanged for everything that is not a load of another file.
 
   State: the procedure table and `vm.loaded`; the file system is a value that the HISTORY may
-  change between loads (write / remove a file).  A file is a list of read results.
+  change between loads (write / remove a file).  A file is a list of read results plus a FAULT
+  PLAN (open fails, read fails after k items, the name is a directory): `fs.ReadFile` is modelled
+  with what it really returns — the part read so far AND the error.
 
   Two registration policies:
     `.code`  text.go as it is: the resolved file name is put into `loaded` BEFORE the text is
@@ -25,27 +27,67 @@ import PrologVerif.Model.Text
 namespace PrologVerif.Files
 open PrologVerif PrologVerif.Load
 
-/-- a file system: name ↦ read results of the file's text (first binding wins) -/
-abbrev FileSys := List (String × List Item)
+/-- what can go wrong when a file is read (the FAULT PLAN of the file, part of the file-system
+    state that a history changes) -/
+inductive Fault where
+  | none
+  /-- `Open` fails (no matter with which error: not-exist, permission, anything else) -/
+  | openFails
+  /-- `Read` fails with a non-EOF error after the first `k` read items; `inside` = the failure
+      falls inside the next item (the bytes read so far end in the middle of a clause) -/
+  | readFails (k : Nat) (inside : Bool)
+  /-- the name denotes a directory -/
+  | directory
+  deriving DecidableEq
 
-def FileSys.read : FileSys → String → Option (List Item)
+structure File where
+  /-- read results of the file's full text -/
+  content : List Item
+  fault : Fault
+  deriving DecidableEq
+
+/-- `fs.ReadFile`: WHAT WAS READ SO FAR, and whether it ended with an error.  (Go's `fs.ReadFile`
+    hands back the bytes read so far together with its error.) -/
+def readFile (f : File) : List Item × Bool :=
+  match f.fault with
+  | .none => (f.content, false)
+  | .openFails => ([], true)
+  | .readFails k inside => (f.content.take k ++ (if inside then [Item.syntaxError] else []), true)
+  | .directory => ([], true)
+
+/-- a file system: name ↦ file (first binding wins) -/
+abbrev FileSys := List (String × File)
+
+def FileSys.read : FileSys → String → Option File
   | [], _ => none
   | (k, v) :: r, n => if k = n then some v else FileSys.read r n
 
-def FileSys.write (fs : FileSys) (n : String) (items : List Item) : FileSys :=
-  (n, items) :: fs.filter (fun e => e.1 ≠ n)
+def FileSys.write (fs : FileSys) (n : String) (f : File) : FileSys :=
+  (n, f) :: fs.filter (fun e => e.1 ≠ n)
 
 def FileSys.remove (fs : FileSys) (n : String) : FileSys := fs.filter (fun e => e.1 ≠ n)
 
-/-- `VM.open`: the file is looked for under the given name, then with `.pl` appended; the name
-    under which it was FOUND is the key of `vm.loaded` (so `lib` and `'lib.pl'` are one file) -/
+/-- one candidate name of `VM.open`: usable only if `fs.ReadFile` returned NO error — what was
+    read before an error is thrown away (`if err != nil { continue }`) -/
+def tryCandidate (fs : FileSys) (n : String) : Option (List Item) :=
+  match fs.read n with
+  | none => none
+  | some f =>
+    match readFile f with
+    | (items, false) => some items
+    | (_, true) => none
+
+/-- `VM.open`: the file is looked for under the given name, then with `.pl` appended; a candidate
+    that cannot be read completely — absent, unopenable, a directory, a read error anywhere — is
+    skipped; the name under which the text was FOUND is the key of `vm.loaded` (so `lib` and
+    `'lib.pl'` are one file).  No candidate left: existence_error, whatever went wrong. -/
 def openFile (fs : FileSys) : Term → Except LoadErr (String × List Item)
   | .var _ => .error (.iso instErr)
   | .atom s =>
-    match fs.read s with
+    match tryCandidate fs s with
     | some items => .ok (s, items)
     | none =>
-      match fs.read (s ++ ".pl") with
+      match tryCandidate fs (s ++ ".pl") with
       | some items => .ok (s ++ ".pl", items)
       | none => .error (.iso (existenceErr "source_sink" (.atom s)))
   | t => .error (.iso (typeErr "atom" t))
@@ -181,8 +223,8 @@ end
 /-! ### histories -/
 
 inductive Step where
-  /-- create or replace a file -/
-  | write (name : String) (items : List Item)
+  /-- create or replace a file: its content and its fault plan -/
+  | write (name : String) (file : File)
   | remove (name : String)
   /-- the query `?- consult(Arg).` -/
   | consult (arg : Term)
@@ -196,7 +238,7 @@ structure World where
 def World.empty : World := ⟨[], ⟨[], [], []⟩⟩
 
 def step (pol : Policy) (ev : Eval) (fuel : Nat) (w : World) : Step → World × Option LoadErr
-  | .write n items => ({ w with fs := w.fs.write n items }, none)
+  | .write n f => ({ w with fs := w.fs.write n f }, none)
   | .remove n => ({ w with fs := w.fs.remove n }, none)
   | .consult arg =>
     let r := consultAll pol w.fs ev fuel w.vm (fileNames arg)
